@@ -149,6 +149,12 @@ pub fn execute(c: &BCfg, seed: u64) -> W {
                     // Err from the inherent/trait entry points means "closed": stop. From the
                     // Dispatcher interface under DropLatest it may mean "discarded": go on.
                     if !ok && (ep != EP_DISPATCHER || c.policy != POL_LATEST || halt.load(Ordering::Relaxed)) {
+                        // the store has closed: a few more (rejected) dispatches, concurrently with the
+                        // other producers' - every one must be rejected and counted
+                        for j in 0..(rng.below(6) as u32) {
+                            let ep2 = if rng.chance(1, 2) { EP_INHERENT } else { EP_STORE_TRAIT };
+                            w.dispatch(0, ep2, Act { id: act_id(0, p as u32 + 1, 8000 + j), script: 0 });
+                        }
                         break;
                     }
                 }
